@@ -557,6 +557,14 @@ func (f *FuncVC) load(st *State, l *Loc) Val {
 		}
 		n := f.heapGet(st, l.Key, sortOf(k, w))
 		v := Val{K: k, W: w, Typ: l.Typ, T: n}
+		if k == KIface && strings.Contains(l.Key, ".Err") && n == l.Key+"@0" && !f.declared["errinit."+l.Key] {
+			// error sentinels: initialised once by errors.New, never reassigned (scan of stores: none outside init)
+			f.declared["errinit."+l.Key] = true
+			h := fnv.New32a()
+			h.Write([]byte(l.Key))
+			f.decls = append(f.decls, fmt.Sprintf("(assert (and (not (= (i.tag %s) 0)) (= (i.pay %s) %d)))", n, n, h.Sum32()))
+			f.assumptions["package-level Err* sentinels are non-nil, pairwise distinct and never reassigned after init"] = true
+		}
 		return v
 	case LArrObj:
 		f.unsupportedf("load of whole array value")
